@@ -5,7 +5,17 @@ package verifrt
 // the scheduler while every goroutine is quiescent), followed by apply() executed under
 // the runtime lock. apply's result is mixed into the happens-before hashes.
 func Step(kind OpKind, pos string, o *Obj, enabled func() bool, apply func() uint64) {
-	e := current()
+	e := cur.Load()
+	if e == nil {
+		// outside a controlled execution (package initialisation): single-threaded, apply directly
+		if enabled != nil && !enabled() {
+			panic("verifrt: blocking synchronisation outside a controlled execution: " + pos)
+		}
+		if apply != nil {
+			apply()
+		}
+		return
+	}
 	g := e.self()
 	p := &op{kind: kind, pos: pos, obj: o, pc: callerPC(3)}
 	if enabled != nil {
